@@ -1,62 +1,68 @@
 ------------------------------ MODULE RegSync ------------------------------
 (***************************************************************************)
-(* (D) design spec for C18: the decision automaton of `regsync once`,       *)
-(* `regsync once --missing` and `regsync check` over small populations of   *)
-(* a source and a target registry, implementation shaped: one action per    *)
+(* (D) design spec for C18: the decision automaton of `regsync once`,      *)
+(* `regsync once --missing` and `regsync check` over small populations of  *)
+(* a source and a target registry, implementation shaped: one action per   *)
 (* registry request / critical section of cmd/regsync/root.go.             *)
 (*                                                                         *)
-(*   action        mirrors                                                  *)
-(*   StartRun      runOnce / runCheck: loadConf, one goroutine per entry    *)
-(*                 when defaults.parallel > 0, else (and always for check)   *)
-(*                 the entries one after the other (MayStep)                *)
-(*   Begin         process: switch on s.Type                                 *)
-(*   Catalog       processRegistry: rc.RepoList + filterList(s.Repos)        *)
-(*   Catalog2      processRegistry: the next page is empty, leave the loop   *)
-(*   NextRepo      processRegistry: loop over the filtered repositories      *)
-(*   TagList       processRepo: rc.TagList(source) + filterList(s.Tags);     *)
-(*                 "No matching tags found" returns nil                      *)
+(*   action        mirrors                                                 *)
+(*   StartRun      runOnce / runCheck: loadConf, one goroutine per entry   *)
+(*                 when defaults.parallel > 0, else (and always for check) *)
+(*                 the entries one after the other (MayStep)               *)
+(*   Begin         process: switch on s.Type                               *)
+(*   Catalog       processRegistry: rc.RepoList + filterList(s.Repos)      *)
+(*   Catalog2      processRegistry: the next page is empty, leave the loop *)
+(*   NextRepo      processRegistry: loop over the filtered repositories    *)
+(*   TagList       processRepo: rc.TagList(source) + filterList(s.Tags);   *)
+(*                 "No matching tags found" returns nil                    *)
 (*   TgtTags       processRepo (actionMissing): rc.TagList(target), drop the *)
-(*                 tags that exist there                                     *)
-(*   NextTag       processRepo: loop over the tags / processImage            *)
-(*   HeadSrc       processRef: rc.ManifestHead(src)                          *)
-(*   HeadTgt       processRef: rc.ManifestHead(tgt) and the decisions up to  *)
-(*                 the platform lookup: matches?, missing mode, media type   *)
-(*   Platform      getPlatformDigest: rc.ManifestGet(src) unless the index   *)
-(*                 digest is in manifestCache, manifest.GetPlatformDesc;     *)
-(*                 second matches? test; actionCheck returns here / above    *)
-(*   Acquire       opts.throttle.Acquire (pqueue, Max = max(parallel,1))     *)
-(*   BkRead        "run backup": ImageCopy(tgt, backupRef) reads the tag     *)
-(*   BkWrite       ... and finally puts the backup tag (errors only warn)    *)
-(*   CpRead        ImageCopy(src, tgt): reads the source (by digest when a   *)
-(*                 platform was resolved: src.Digest is set)                 *)
+(*                 tags that exist there                                   *)
+(*   NextTag       processRepo: loop over the tags / processImage          *)
+(*   HeadSrc       processRef: rc.ManifestHead(src)                        *)
+(*   HeadTgt       processRef: rc.ManifestHead(tgt) and the decisions up to*)
+(*                 the platform lookup: matches?, missing mode, media type *)
+(*   Platform      getPlatformDigest: rc.ManifestGet(src) unless the index *)
+(*                 digest is in manifestCache, manifest.GetPlatformDesc;   *)
+(*                 second matches? test; actionCheck returns here / above  *)
+(*   Acquire       opts.throttle.Acquire (pqueue, Max = max(parallel,1))   *)
+(*   BkRead        "run backup": ImageCopy(tgt, backupRef) reads the tag   *)
+(*   BkWrite       ... and finally puts the backup tag (errors only warn)  *)
+(*   CpRead        ImageCopy(src, tgt): reads the source (by digest when a *)
+(*                 platform was resolved: src.Digest is set)               *)
 (*   DtWrite       image.go imageCopyOpt: digest tags of the copied manifest *)
-(*                 are copied before the manifest itself is put              *)
-(*   CpWrite       imageCopyOpt: ManifestPut(tgt) unless equal and not       *)
-(*                 forced; throttleDone (deferred)                           *)
-(*   Fail          an error is returned for this tag, the entry goes on      *)
-(*                 (abortOnErr is off); runOnce joins the errors -> exit 1   *)
-(*   EndRun / Idle the process exits; the observer compares before / after   *)
+(*                 are copied before the manifest itself is put            *)
+(*   CpWrite       imageCopyOpt: ManifestPut(tgt) unless equal and not     *)
+(*                 forced; throttleDone (deferred)                         *)
+(*   Fail          an error is returned for this tag, the entry goes on    *)
+(*                 (abortOnErr is off); runOnce joins the errors -> exit 1 *)
+(*   EndRun / Idle the process exits; the observer compares before / after *)
 (*   EnvMove       the environment moves / deletes a source tag between runs *)
-(*   FilterList    filterList: "^" + filter + "$" (Anchoring = "asis": a top  *)
-(*                 level alternation a|b|c is then bound only at its outer   *)
-(*                 ends) or "^(?:" + filter + ")$" (Anchoring = "fixed")      *)
+(*   FilterList    filterList: "^(?:" + filter + ")$" (Anchoring = "fixed",*)
+(*                 the code since 798ad2f) or, as found, "^" + filter + "$"*)
+(*                 (Anchoring = "asis": a top level alternation a|b|c is   *)
+(*                 then bound only at its outer ends, finding C18-1)       *)
+(*   Platform      PlatMatch = "fixed" (since 749f3ad) / "asis" (finding   *)
+(*                 C18-2): what tgtMatches means after the platform lookup *)
+(* The repaired readings are the default of every configuration; the as    *)
+(* found ones remain as switches for the expected-counterexample configs   *)
+(* (C18_mc_s14.cfg, C18_mc_bkforce.cfg), which explain the reverse seeds.  *)
 (*                                                                         *)
-(* Deliberate deviations: an ImageCopy is two steps (read the source        *)
-(* reference, write the tag) - blobs, child manifests and their order are   *)
-(* C03/C04's subject and every copy is taken to be complete; registry       *)
-(* errors / faults are not modelled (no fault injection in C18); rate limit *)
-(* waiting, hooks, server mode and abortOnErr are left out; tag and         *)
-(* repository lists are one page; referrers are not visible at tag level.   *)
-(* The postconditions are RegSyncDefs!EndBad / OverwriteBad, i.e. exactly   *)
-(* what the property monitor evaluates on real traces.                      *)
+(* Deliberate deviations: an ImageCopy is two steps (read the source       *)
+(* reference, write the tag) - blobs, child manifests and their order are  *)
+(* C03/C04's subject and every copy is taken to be complete; registry      *)
+(* errors / faults are not modelled (no fault injection in C18); rate limit*)
+(* waiting, hooks, server mode and abortOnErr are left out; tag and        *)
+(* repository lists are one page; referrers are not visible at tag level.  *)
+(* The postconditions are RegSyncDefs!EndBad / OverwriteBad, i.e. exactly  *)
+(* what the property monitor evaluates on real traces.                     *)
 (***************************************************************************)
 EXTENDS RegSyncDefs, Integers, TLC
 
 CONSTANTS Scenarios,   \* sequence of sets of [conf, src, tgt, plan]: src/tgt sets of <<repo, tag, img>>,
                        \* plan a sequence of [op, mode, repo, tag, img] (op: run | move | del)
                        \* (a sequence of sets: TLC's union of large sets of records is quadratic)
-          Anchoring,   \* "asis" | "fixed": how filterList binds an expression (finding C18-1 / S14)
-          PlatMatch,   \* "asis" | "fixed": tgtMatches after the platform lookup (finding C18-2)
+          Anchoring,   \* "fixed" (current code) | "asis" (as found): how filterList binds an expression (C18-1 / S14)
+          PlatMatch,   \* "fixed" (current code) | "asis" (as found): tgtMatches after the platform lookup (C18-2)
           Chars,       \* name -> sequence of characters (only needed for Anchoring = "asis")
           NameOrder    \* sequence of all tag and repository names in the registry's listing order
 
@@ -68,11 +74,12 @@ vars == <<conf, plan, world, phase, mode, proc, held, cache, errs, before, puts,
 Bystanders == {<<"tgt", "keep", "v1", "C", 1>>, <<"tgt", "keep", "stable", "X", 1>>,
                <<"oth", "r1", "v1", "B", 1>>, <<"oth", "bk/r1", "latest-old", "C", 1>>}
 
-\* ------------------------------------------------------------ filterList as coded
+\* ------------------------------------------------------------ filterList
 IsPre(s, t) == Len(s) <= Len(t) /\ SubSeq(t, 1, Len(s)) = s
 IsSuf(s, t) == Len(s) <= Len(t) /\ SubSeq(t, Len(t) - Len(s) + 1, Len(t)) = s
 IsIn(s, t) == \E i \in 0..(Len(t) - Len(s)) : SubSeq(t, i + 1, i + Len(s)) = s
-\* regexp.Compile("^" + filter + "$").MatchString(t) for the spellings the scenarios use
+\* regexp.Compile(...).MatchString(t) for the spellings the scenarios use: the whole expression is
+\* grouped before it is anchored; as found ("asis") only the outer alternatives were anchored
 CodeMatch(f, t) ==
   IF Anchoring = "asis" /\ f.style = "alt" /\ Len(f.tags) >= 2
   THEN LET n == Len(f.tags) IN
@@ -212,8 +219,9 @@ Platform(k) ==
   /\ LET e == Ent(k)
          p == proc[k]
          c == Resolve(p.mSrc, e.platform)
-         \* as coded: `if tgtExists && platDigest == digest(mTgt) { tgtMatches = true }` keeps a TRUE from
-         \* the comparison with the index; fixed: tgtMatches describes the manifest that will be written
+         \* tgtMatches describes the manifest that will be written; as found ("asis"):
+         \* `if tgtExists && platDigest == digest(mTgt) { tgtMatches = true }` kept a TRUE from the
+         \* comparison with the index
          ma == IF PlatMatch = "asis" THEN p.tMa \/ (p.tEx /\ c = p.mTgt) ELSE p.tEx /\ c = p.mTgt
      IN IF c = "none" THEN Set(k, Finish(p, k)) /\ errs' = errs \cup {k}
         ELSE /\ Set(k, IF ma /\ ~e.force THEN Finish(p, k) ELSE Needed([p EXCEPT !.use = c, !.tMa = ma], k))
